@@ -11,6 +11,9 @@ from ..model import AnalysisError, dotted, unparse, short
 from ..cfg import cfg_of
 from .. import straight as S
 from .. import shape
+from ..facts import facts_of
+from ..contract import refusals, member
+from ..pathsum import summarize
 from .c08 import guard_contract, raising_ifs
 from ..contract import describe_alt
 
@@ -33,6 +36,66 @@ def _var(n):
     return ("var", n)
 
 
+def _refuses_unknown_hash(fi, name_param):
+    """A ValueError is raised when <name> (possibly lower-cased) is not in hashlib.algorithms_available."""
+    F = facts_of(fi)
+
+    def pred(k, t):
+        return k[0] == "in" and not t and k[2].endswith("algorithms_available") and (name_param in k[1])
+    return bool(refusals(F, pred))
+
+
+def _bound_args(t, fn, params):
+    """{parameter: term} of a call term to `fn`, or None."""
+    if t is None or t[0] != "call" or t[1] != fn:
+        return None
+    out = {}
+    for i, a in enumerate(t[2]):
+        if i >= len(params):
+            return None
+        out[params[i]] = a
+    for k, v in t[3]:
+        if k in out:
+            return None
+        out[k] = v
+    return out
+
+
+def _check_init_defaults(repo, init, name_param, mac_fn, callable_attr=None):
+    """Constructor: self.hash_func_name = <name>; when output_length is LENGTH_NOT_GIVEN, self.output_length becomes the digest
+    size of an instance of that very hash.  -> None or the reason."""
+    try:
+        not_given = repo.const_value(init.module, ast.parse("LENGTH_NOT_GIVEN", mode="eval").body)
+    except Exception:
+        return "LENGTH_NOT_GIVEN is no longer a constant here"
+    nm = ("var", name_param)
+    seen_default = False
+    for ps in summarize(init):
+        if ps.exc is not None:
+            continue
+        if ps.store("hash_func_name") != nm:
+            return "hash name not recorded on a path [%s]" % describe_alt(ps.facts)
+        if callable_attr is not None:
+            probe = ("var", "__probe__")
+            applied = S.canon(("call", ("fnval", ps.store(callable_attr)), (probe,), ())) if ps.store(callable_attr) is not None else None
+            if applied != ("call", mac_fn, (nm, probe), ()):
+                return "self.%s is %s" % (callable_attr, S.show(ps.store(callable_attr))[:80] if ps.store(callable_attr) else None)
+        is_default = ps.has(lambda k, t: k[0] == "==" and repr(not_given) in k[1:] and ("output_length__entry" in k[1:]) and t)
+        if is_default:
+            seen_default = True
+            ol = ps.store("output_length")
+            ok = ol is not None and ol[0] == "attr" and ol[2] == "digest_size" and ol[1][0] == "call" and ol[1][1] == mac_fn
+            if ok and mac_fn == ("fn", "hmac.new"):
+                ok = dict(ol[1][3]).get("digestmod") in (nm,)
+            if ok and mac_fn == ("fn", "hashlib.new"):
+                ok = ol[1][2][:1] == (nm,)
+            if not ok:
+                return "default output length is %s" % (S.show(ol)[:100] if ol else None)
+    if not seen_default:
+        return "no path handles output_length == LENGTH_NOT_GIVEN"
+    return None
+
+
 def check(repo):
     r1 = Rule("R16.1", "P_hash recurrence of RFC 5246")
     r2 = Rule("R16.2", "exactly the requested number of bytes")
@@ -42,85 +105,96 @@ def check(repo):
     rules = [r1, r2, r3, r4, r5]
 
     p = repo.func(PRF, "_tls_p_hash")
-    key, msg, outlen, hname = (("var", x) for x in p.params[:4])
-    try:
-        sm = shape.summary(shape.bytes_accumulators(p.node))
-    except shape.NoShape as e:
-        r1.fail_fn(p, p.node, "expansion loop", "_tls_p_hash is no longer <prefix>; <one expansion loop>; return (%s)" % e)
-        return rules
 
-    def HM(k, m):
-        return ("call", ("method", ("call", ("fn", "hmac.new"), (k, m), (("digestmod", hname),)), "digest"), (), ())
-    A, RES = S.mv("A"), S.mv("RES")
-    eqs = [
-        (HM(key, msg), lambda asg: sm.init.get(asg["A"])),                                   # A(1) = HMAC(key, A(0) = message)
-        (("const", b""), lambda asg: sm.init.get(asg["RES"])),                                # empty accumulator
-        (("cat", (RES, HM(key, ("cat", (A, msg))))), lambda asg: sm.step.get(asg["RES"])),    # res' = res || HMAC(key, A || message)
-        (HM(key, A), lambda asg: sm.step.get(asg["A"])),                                      # A' = HMAC(key, A)
-    ]
-    found = S.match_all(eqs, ["A", "RES"], sm.carried)
-    if found is None:
-        # say which equation has no witness
-        why = []
-        for nm, (pat, _g) in zip(("A(1) = HMAC(key, message)", "empty accumulator", "output block = HMAC(key, A(i) || message)", "A(i+1) = HMAC(key, A(i))"), eqs):
-            vals = list(sm.init.values()) if nm in ("A(1) = HMAC(key, message)", "empty accumulator") else list(sm.step.values())
-            if not any(S.unify(pat, v, {}) for v in vals):
-                why.append(nm)
-        r1.fail_fn(p, sm.loop, "P_hash recurrence",
-                   "_tls_p_hash no longer computes the P_hash recurrence of RFC 5246 (A(1) = HMAC(secret, seed); per block: output += HMAC(secret, A(i) + seed), "
-                   "A(i+1) = HMAC(secret, A(i)), all with HMAC over the named hash and the caller's key): no variable satisfies %s; loop-carried state: %s" % (
-                       " / ".join(why) or "all four equations consistently", {k: S.show(v)[:90] for k, v in sm.step.items()}))
-        return rules
-    asg, _b = found
-    r1.ok({"A": asg["A"], "RES": asg["RES"], "A1": S.show(sm.init[asg["A"]])[:100], "res'": S.show(sm.step[asg["RES"]])[:140], "A'": S.show(sm.step[asg["A"]])[:100]})
-    r1.ok({"check": "H is HMAC with the named hash", "hash": p.params[3]})
-    # iteration count: ceil(output_len / hash_len) with hash_len the digest size of the same HMAC, or 'until long enough'
-    hl_pat = ("attr", ("call", ("fn", "hmac.new"), (S.mv("K"), S.mv("M")), (("digestmod", hname),)), "digest_size")
-    tm = shape.times(sm, None)
+    def _phash():
+        key, msg, outlen, hname = (("var", x) for x in p.params[:4])
+        try:
+            sm = shape.summary(shape.bytes_accumulators(p.node))
+        except shape.NoShape as e:
+            r1.fail_fn(p, p.node, "expansion loop", "_tls_p_hash is no longer <prefix>; <one expansion loop>; return (%s)" % e)
+            return
 
-    def is_hl(t):
-        return S.unify(hl_pat, t, {})
-    ok_n, n_txt = False, S.show(tm[1])[:120] if tm and tm[1] is not None else None
-    if tm and tm[0] == "count" and tm[1] is not None:
-        n0 = tm[1]
-        # (output_len + hash_len - 1) // hash_len  |  math.ceil(output_len / hash_len)  |  -(-output_len // hash_len)
-        if n0[0] == "op" and n0[1] == "FloorDiv" and is_hl(n0[3]):
-            num = n0[2]
-            parts = list(num[2:]) if num[0] == "op" and num[1] == "Sub" else None
-            if parts and parts[1] == ("const", 1) and parts[0][0] == "cat" and sorted(map(repr, parts[0][1])) == sorted(map(repr, (outlen, n0[3]))):
+        def HM(k, m):
+            return ("call", ("method", ("call", ("fn", "hmac.new"), (k, m), (("digestmod", hname),)), "digest"), (), ())
+        A, RES = S.mv("A"), S.mv("RES")
+        eqs = [
+            (HM(key, msg), lambda asg: sm.init.get(asg["A"])),                                   # A(1) = HMAC(key, A(0) = message)
+            (("const", b""), lambda asg: sm.init.get(asg["RES"])),                                # empty accumulator
+            (("cat", (RES, HM(key, ("cat", (A, msg))))), lambda asg: sm.step.get(asg["RES"])),    # res' = res || HMAC(key, A || message)
+            (HM(key, A), lambda asg: sm.step.get(asg["A"])),                                      # A' = HMAC(key, A)
+        ]
+        found = S.match_all(eqs, ["A", "RES"], sm.carried)
+        if found is None:
+            # say which equation has no witness
+            why = []
+            for nm, (pat, _g) in zip(("A(1) = HMAC(key, message)", "empty accumulator", "output block = HMAC(key, A(i) || message)", "A(i+1) = HMAC(key, A(i))"), eqs):
+                vals = list(sm.init.values()) if nm in ("A(1) = HMAC(key, message)", "empty accumulator") else list(sm.step.values())
+                if not any(S.unify(pat, v, {}) for v in vals):
+                    why.append(nm)
+            r1.fail_fn(p, sm.loop, "P_hash recurrence",
+                       "_tls_p_hash no longer computes the P_hash recurrence of RFC 5246 (A(1) = HMAC(secret, seed); per block: output += HMAC(secret, A(i) + seed), "
+                       "A(i+1) = HMAC(secret, A(i)), all with HMAC over the named hash and the caller's key): no variable satisfies %s; loop-carried state: %s" % (
+                           " / ".join(why) or "all four equations consistently", {k: S.show(v)[:90] for k, v in sm.step.items()}))
+            return
+        asg, _b = found
+        r1.ok({"A": asg["A"], "RES": asg["RES"], "A1": S.show(sm.init[asg["A"]])[:100], "res'": S.show(sm.step[asg["RES"]])[:140], "A'": S.show(sm.step[asg["A"]])[:100]})
+        r1.ok({"check": "H is HMAC with the named hash", "hash": p.params[3]})
+        # iteration count: ceil(output_len / hash_len) with hash_len the digest size of the same HMAC, or 'until long enough'
+        hl_pat = ("attr", ("call", ("fn", "hmac.new"), (S.mv("K"), S.mv("M")), (("digestmod", hname),)), "digest_size")
+        tm = shape.times(sm, None)
+
+        def is_hl(t):
+            return S.unify(hl_pat, t, {})
+        ok_n, n_txt = False, S.show(tm[1])[:120] if tm and tm[1] is not None else None
+        if tm and tm[0] == "count" and tm[1] is not None:
+            n0 = tm[1]
+            # (output_len + hash_len - 1) // hash_len  |  math.ceil(output_len / hash_len)  |  -(-output_len // hash_len)
+            if n0[0] == "op" and n0[1] == "FloorDiv" and is_hl(n0[3]):
+                num = n0[2]
+                parts = list(num[2:]) if num[0] == "op" and num[1] == "Sub" else None
+                if parts and parts[1] == ("const", 1) and parts[0][0] == "cat" and sorted(map(repr, parts[0][1])) == sorted(map(repr, (outlen, n0[3]))):
+                    ok_n = True
+                if num[0] == "cat" and len(num[1]) == 3 and outlen in num[1] and n0[3] in num[1] and ("const", -1) in num[1]:
+                    ok_n = True
+            if n0[0] == "call" and n0[1] == ("fn", "math.ceil") and len(n0[2]) == 1 and n0[2][0][0] == "op" and n0[2][0][1] == "Div" and \
+                    n0[2][0][2] == outlen and is_hl(n0[2][0][3]):
                 ok_n = True
-            if num[0] == "cat" and len(num[1]) == 3 and outlen in num[1] and n0[3] in num[1] and ("const", -1) in num[1]:
+            if n0[0] == "un" and n0[1] == "USub" and n0[2][0] == "op" and n0[2][1] == "FloorDiv" and n0[2][2] == ("un", "USub", outlen) and is_hl(n0[2][3]):
                 ok_n = True
-        if n0[0] == "call" and n0[1] == ("fn", "math.ceil") and len(n0[2]) == 1 and n0[2][0][0] == "op" and n0[2][0][1] == "Div" and \
-                n0[2][0][2] == outlen and is_hl(n0[2][0][3]):
-            ok_n = True
-        if n0[0] == "un" and n0[1] == "USub" and n0[2][0] == "op" and n0[2][1] == "FloorDiv" and n0[2][2] == ("un", "USub", outlen) and is_hl(n0[2][3]):
-            ok_n = True
-    elif tm and tm[0] == "until":
-        c = tm[1]
-        # while len(res) < output_len
-        if c[0] == "cmp" and len(c[1]) == 1:
-            l, r_ = c[2]
-            ln = ("call", ("fn", "len"), (("var", asg["RES"]),), ())
-            ok_n = (c[1][0] == "Lt" and l == ln and r_ == outlen) or (c[1][0] == "Gt" and r_ == ln and l == outlen)
-            n_txt = S.show(c)
-    r2.require(ok_n, p, "ceil(output_len / hash_len) blocks",
-               "_tls_p_hash produces %s blocks; ceil(output_len / hash_len) are needed to cover the requested length (hash_len = digest size of the same HMAC)" % n_txt, sm.loop)
-    want_ret = ("slice", ("var", asg["RES"]), None, outlen)
-    r2.require(sm.ret == want_ret, p, "result truncated to output_len",
-               "_tls_p_hash returns %s instead of the accumulated blocks cut to output_len" % (S.show(sm.ret) if sm.ret else None))
-    g = [st for st, exc in raising_ifs(p) if exc == "ValueError" and "algorithms_available" in unparse(st.test)]
-    r5.require(bool(g), p, "unknown hash refused", "_tls_p_hash no longer refuses an unknown hash name")
+        elif tm and tm[0] == "until":
+            c = tm[1]
+            # while len(res) < output_len
+            if c[0] == "cmp" and len(c[1]) == 1:
+                l, r_ = c[2]
+                ln = ("call", ("fn", "len"), (("var", asg["RES"]),), ())
+                ok_n = (c[1][0] == "Lt" and l == ln and r_ == outlen) or (c[1][0] == "Gt" and r_ == ln and l == outlen)
+                n_txt = S.show(c)
+        r2.require(ok_n, p, "ceil(output_len / hash_len) blocks",
+                   "_tls_p_hash produces %s blocks; ceil(output_len / hash_len) are needed to cover the requested length (hash_len = digest size of the same HMAC)" % n_txt, sm.loop)
+        want_ret = ("slice", ("var", asg["RES"]), None, outlen)
+        r2.require(sm.ret == want_ret, p, "result truncated to output_len",
+                   "_tls_p_hash returns %s instead of the accumulated blocks cut to output_len" % (S.show(sm.ret) if sm.ret else None))
 
-    # HmacPRF.__call__
+    _phash()
+    r5.require(_refuses_unknown_hash(p, p.params[3]), p, "unknown hash refused", "_tls_p_hash no longer refuses an unknown hash name")
+
+    # HmacPRF.__call__: every result is P_hash(key, message, declared output length, declared hash)
     call = repo.func(PRF, "HmacPRF.__call__")
-    rets = [x for x in ast.walk(call.node) if isinstance(x, ast.Return)]
-    ok = len(rets) == 1 and unparse(rets[0].value).replace("\n", "").replace(" ", "") == "_tls_p_hash(key,message,self.output_length,self.hash_func_name)"
-    r2.require(ok, call, "PRF passes its declared output length and hash", "HmacPRF.__call__ returns %s" % (short(rets[0].value) if rets else None))
+    want = {p.params[0]: ("var", call.params[1]), p.params[1]: ("var", call.params[2]),
+            p.params[2]: ("attr", ("var", "self"), "output_length"), p.params[3]: ("attr", ("var", "self"), "hash_func_name")}
+    rets = [ps for ps in summarize(call) if ps.exc is None]
+    okc = bool(rets)
+    shown = None
+    for ps in rets:
+        got = _bound_args(ps.ret, ("fn", "_tls_p_hash"), p.params) if ps.returned else None
+        if got != want:
+            okc, shown = False, ps.ret
+    r2.require(okc, call, "PRF passes its declared output length and hash", "HmacPRF.__call__ returns %s" % (S.show(shown)[:120] if shown else None))
+    # HmacPRF.__init__: records the hash name; a missing output length defaults to the digest size of that hash
     init = repo.func(PRF, "HmacPRF.__init__")
-    src = unparse(init.node)
-    r2.require("if output_length == LENGTH_NOT_GIVEN" in src and "digest_size" in src and "self.hash_func_name = hash_func_name" in src, init, "default output length is the digest size",
-               "HmacPRF.__init__ no longer defaults the output length to the digest size / no longer records the hash name")
+    oi = _check_init_defaults(repo, init, "hash_func_name", ("fn", "hmac.new"))
+    r2.require(oi is None, init, "default output length is the digest size",
+               "HmacPRF.__init__ no longer defaults the output length to the digest size / no longer records the hash name (%s)" % oi)
     for subj, decl in (("key", "key_length"), ("message", "message_length")):
         refused, bad, F, what = guard_contract(call, subj, decl)
         if r5.require(bool(refused), call, "guard %s" % subj, "HmacPRF.__call__ no longer refuses a %s of the wrong length" % subj):
@@ -137,28 +211,59 @@ def check(repo):
 
     # ---------------------------------------------------------------- hash wrapper
     ce = repo.func(HASH, "HashlibHashVariableOutputLengthWrapper._ctr_expand")
-    loop2 = next((st for st in ce.node.body if isinstance(st, ast.While)), None)
-    if r4.require(loop2 is not None, ce, "expansion loop", "_ctr_expand lost its loop"):
-        pre2 = [st for st in ce.node.body[:ce.node.body.index(loop2)] if isinstance(st, ast.Assign)]
-        e0 = S.run(pre2)
-        e1 = S.run(loop2.body)
-        r4.require(e0.get("c") == ("const", 1) and e0.get("result") == ("const", b""), ce, "counter starts at 1", "_ctr_expand: counter/result start at %s / %s" % (
-            S.show(e0.get("c")) if e0.get("c") else None, S.show(e0.get("result")) if e0.get("result") else None))
-        want = ("op", "Add", _var("result"), ("call", ("method", ("call", ("fn", "self.hash_func"), (("op", "Add", _var(ce.params[1]), ("call", ("fn", "int_to_bytes"), (_var("c"),), ())),), ()), "digest"), (), ()))
-        r4.require(e1.get("result") == want, ce, "block = hash(message || I2B(counter))", "_ctr_expand appends %s" % (S.show(e1.get("result"))[:140] if e1.get("result") else None))
-        r4.require(e1.get("c") == ("op", "Add", _var("c"), ("const", 1)), ce, "counter step 1", "_ctr_expand advances the counter by %s" % (S.show(e1.get("c")) if e1.get("c") else None))
-        r2.require(unparse(loop2.test) == "len(result) < self.output_length", ce, "expands until long enough", "_ctr_expand stops when %s" % unparse(loop2.test))
-        rets = [x for x in ast.walk(ce.node) if isinstance(x, ast.Return)]
-        r2.require(len(rets) == 1 and unparse(rets[0].value) == "result[:self.output_length]", ce, "truncated to output_length", "_ctr_expand returns %s" % (unparse(rets[0].value) if rets else None))
+    cmsg = ("var", ce.params[1])
+    olen = ("attr", ("var", "self"), "output_length")
+    try:
+        sm2 = shape.summary(shape.bytes_accumulators(ce.node))
+    except shape.NoShape as e:
+        sm2 = None
+        r4.fail_fn(ce, ce.node, "expansion loop", "_ctr_expand is no longer <prefix>; <one expansion loop>; return (%s)" % e)
+    if sm2 is not None:
+        C, RES = S.mv("C"), S.mv("RES")
+        blk = ("call", ("method", ("call", ("fn", "self.hash_func"), (("cat", (cmsg, ("call", ("fn", "int_to_bytes"), (C,), ()))),), ()), "digest"), (), ())
+        eqs2 = [(("const", 1), lambda asg: sm2.init.get(asg["C"])),
+                (("const", b""), lambda asg: sm2.init.get(asg["RES"])),
+                (("cat", (RES, blk)), lambda asg: sm2.step.get(asg["RES"])),
+                (("cat", (C, ("const", 1))), lambda asg: sm2.step.get(asg["C"]))]
+        f2 = S.match_all(eqs2, ["C", "RES"], sm2.carried)
+        if f2 is None:
+            why = [nm for nm, (pat, _g), pool in zip(("counter starts at 1", "empty accumulator", "block = hash(message || I2B(counter))", "counter step 1"), eqs2,
+                                                       (sm2.init, sm2.init, sm2.step, sm2.step)) if not any(S.unify(pat, v, {}) for v in pool.values())]
+            r4.fail_fn(ce, sm2.loop, why[0] if why else "counter-mode recurrence",
+                       "_ctr_expand no longer expands as result += hash(message || I2B(c)) for c = 1, 2, ...: %s; per iteration it computes %s" % (
+                           " / ".join(why) or "the equations have no common witness", {k: S.show(v)[:100] for k, v in sm2.step.items()}))
+        else:
+            asg2, _ = f2
+            r4.ok({"C": asg2["C"], "RES": asg2["RES"], "res'": S.show(sm2.step[asg2["RES"]])[:140]})
+            tm2 = shape.times(sm2, None)
+            ln = ("call", ("fn", "len"), (("var", asg2["RES"]),), ())
+            c = tm2[1] if tm2 and tm2[0] == "until" else None
+            oku = c is not None and c[0] == "cmp" and len(c[1]) == 1 and ((c[1][0] == "Lt" and c[2] == (ln, olen)) or (c[1][0] == "Gt" and c[2] == (olen, ln)))
+            r2.require(oku, ce, "expands until long enough", "_ctr_expand stops when %s" % (S.show(c) if c else tm2), sm2.loop)
+            r2.require(sm2.ret == ("slice", ("var", asg2["RES"]), None, olen), ce, "truncated to output_length", "_ctr_expand returns %s" % (S.show(sm2.ret) if sm2.ret else None))
     hc = repo.func(HASH, "HashlibHashVariableOutputLengthWrapper.__call__")
-    src = unparse(hc.node)
-    r4.require("self.hash_func(message).digest(self.output_length)" in src and "'shake_128'" in src and "'shake_256'" in src and "return self._ctr_expand(message)" in src, hc,
-               "XOF branch / counter branch", "hash wrapper __call__ no longer uses native XOF output for shake_* and counter expansion otherwise")
+    hmsg = ("var", hc.params[1])
+    xof = ("call", ("method", ("call", ("fn", "self.hash_func"), (hmsg,), ()), "digest"), (olen,), ())
+    ctr = ("call", ("fn", "self._ctr_expand"), (hmsg,), ())
+    okx, seen_x, seen_c = True, False, False
+    is_xof = member("self.hash_func_name", {"shake_128", "shake_256"})
+    for ps in summarize(hc):
+        if ps.exc is not None:
+            continue
+        if ps.has(lambda k, t: is_xof(k, True) and t):
+            seen_x = True
+            okx = okx and ps.ret == xof
+        elif ps.has(lambda k, t: is_xof(k, True) and not t):
+            seen_c = True
+            okx = okx and ps.ret == ctr
+        else:
+            okx = False
+    r4.require(okx and seen_x and seen_c, hc, "XOF branch / counter branch", "hash wrapper __call__ no longer uses native XOF output for shake_* and counter expansion otherwise")
     hi = repo.func(HASH, "HashlibHashVariableOutputLengthWrapper.__init__")
-    srci = unparse(hi.node)
-    r2.require("functools.partial(hashlib.new, hash_func_name)" in srci and "self.output_length = hash_func(b'').digest_size" in srci, hi, "hash bound by name; default length",
-               "hash wrapper __init__ no longer binds hashlib.new(hash_func_name) / defaults the output length to the digest size")
-    r5.require(any(exc == "ValueError" and "algorithms_available" in unparse(st.test) for st, exc in raising_ifs(hi)), hi, "unknown hash refused", "hash wrapper no longer refuses unknown hash names")
+    oh = _check_init_defaults(repo, hi, "hash_func_name", ("fn", "hashlib.new"), callable_attr="hash_func")
+    r2.require(oh is None, hi, "hash bound by name; default length",
+               "hash wrapper __init__ no longer binds hashlib.new(hash_func_name) / defaults the output length to the digest size (%s)" % oh)
+    r5.require(_refuses_unknown_hash(hi, "hash_func_name"), hi, "unknown hash refused", "hash wrapper no longer refuses unknown hash names")
 
     # ---------------------------------------------------------------- determinism
     for fi in (p, call, ce, hc, repo.func("toolkit/symmetric_encryption/fpe.py", "BitwiseFFX.round")):
@@ -187,15 +292,13 @@ def check(repo):
         r3.require(not keep, fi, "inputs used as given in %s" % fi.name,
                    "%s rebinds its input %s (%s): the value fed to the MAC/hash is no longer the caller's" % (fi.qual, keep[0][0] if keep else "", short(keep[0][1]) if keep else ""),
                    keep[0][1] if keep else None)
-    # both inputs reach the MAC
-    uses = unparse(p.node)
-    r3.require("hash_func(key, a + message)" in uses and "hash_func(key, message)" in uses and "hash_func(key, a)" in uses, p, "key and message in every MAC", "_tls_p_hash: a MAC call no longer binds both key and message/chain value")
 
     # registries
+    from .c08 import registry_refuses
     for rel, fn in (("toolkit/prf/__init__.py", "get_prf_implementation"), (HASH, "get_hash_implementation")):
         fi = repo.func(rel, fn)
-        last = fi.node.body[-1]
-        r5.require(isinstance(last, ast.Raise) and isinstance(last.exc, ast.Call) and dotted(last.exc.func) == "ValueError", fi, "registry refuses unknown names", "%s no longer raises ValueError" % fn)
+        why = registry_refuses(fi)
+        r5.require(why is None, fi, "registry refuses unknown names", "%s no longer raises ValueError for unknown names or can return without an implementation (%s)" % (fn, why))
     gp = repo.func("toolkit/prf/__init__.py", "get_prf_implementation")
     r5.require("HmacPRF" in unparse(gp.node) and "'hmacprf'" in unparse(gp.node), gp, "HmacPRF registered", "get_prf_implementation no longer maps 'hmacprf' to HmacPRF")
     return rules
